@@ -8,21 +8,73 @@ number, so `next L (b + 1) it ≠ outOfFuel` says: `next()` answers (an element,
 after at most `b` unproductive iterations.  `Prod it`: the source has no internal loop of its own
 (arrays, `count()`, `successors`, and `map` / `take_while` / `aggregate` / `with_count` of such).
 
-Full statement (kept for reference; proved for the loops below over such sources, hence `_partial`):
-  for every generator `g`, every limit `L = some l` and every state `it` reachable from `g.iter L`,
-  `next L (c * (l + size g) + 1) it ≠ outOfFuel`.
-What is proved covers every internal loop of `generators.rs` that the repairs 5cb2fd9 / 44f5035 /
-5b71e05 touched, each over loop-free sources and from every state (all permits, all counters);
-nesting loops inside loops (a filter of a filter …) multiplies the bounds and is explored by the tie.
+General statement (`next_work_bounded`): for every generator `g` without `zip`, every search limit `l` and
+every state reachable from `g.iter (some l)`, `next()` answers after at most `g.work l` unproductive
+iterations, where `work` multiplies the bound of the source by `l + 2` at every level that loops (filter,
+skip_until, skip, group, windows: a permit per iteration), by 2 at `repeat`, by the number of parts at a
+chain, and is 0 for sources: a polynomial in the limit whose degree is the nesting depth of loops, with
+coefficients from the program size.  The per-loop theorems below give the sharp constants over loop-free
+sources.  `zip` (a round pulls every part once: bounded by the number of parts times their bounds) is
+modelled and tied but has no theorem; it is the one adaptor the general statement leaves out.
 -/
-import XrayProofs.GenWork
+import XrayProofs.GenBound
 import XrayModel.GenLimits
 namespace XrayModel.C10
 open XrayModel.Gen XrayModel.GenLimits
 
+/-- the general bound, nested loops included: from the fresh consumer iterator of `g` and from every state
+reachable from it, `next()` answers within `g.work l` unproductive iterations -/
+theorem next_work_bounded (l : Nat) (g : G) (h : g.nest = true) :
+    Bnd (some l) (g.work l) (g.iter (some l)) := by
+  rw [G.iter]; exact bnd_budget _ _ _ _ (work_bounded l g h)
+
+/-- in particular the first `next()` of a consumer answers -/
+theorem next_work_bounded_first (l : Nat) (g : G) (h : g.nest = true) :
+    next (some l) (g.work l + 1) (g.iter (some l)) ≠ .outOfFuel :=
+  bnd_next (next_work_bounded l g h)
+
+/-- … and so does every later one: the bound holds again after any number of steps -/
+theorem next_work_bounded_later (l : Nat) (g : G) (h : g.nest = true) (n : Nat) (s : It)
+    (hs : after (some l) n (g.iter (some l)) = some s) :
+    next (some l) (g.work l + 1) s ≠ .outOfFuel := by
+  have hb := next_work_bounded l g h
+  suffices ∀ n it s, Bnd (some l) (g.work l) it → after (some l) n it = some s → Bnd (some l) (g.work l) s from
+    bnd_next (this n _ s hb hs)
+  intro n
+  induction n with
+  | zero => intro it s hb hs; simp [after] at hs; subst hs; exact hb
+  | succ n ih =>
+    intro it s hb hs
+    simp only [after] at hs
+    cases hst : step (some l) it with
+    | done => simp [hst] at hs
+    | skip t => simp only [hst] at hs; exact ih t s (bnd_skip hb hst) hs
+    | «yield» x t => simp only [hst] at hs; exact ih t s (bnd_yield hb hst) hs
+
+/-- the bound is a function of the limit and the program only; e.g. a filter of a repeat of a filter of the
+counter: `(l+2) * (2 * ((l+2) * 1 + 1) + 1)` -/
+example (l : Nat) (p q : P) :
+    (G.filter (.repeat_ (.filter (.fromCount none) p)) q).work l = (l + 2) * (2 * ((l + 2) * (0 + 1) + 1) + 1) := by
+  simp [G.work]
+
+/-- the building blocks, for any source with bound `B`: a loop that takes permits … -/
+theorem loop_bound_filter (L : Option Nat) (B k : Nat) (p : P) (perm : Permits) (it : It)
+    (hu : perm ≠ .unlimited) (hb : perm.bound ≤ k) (h : Bnd L B it) :
+    Bnd L ((k + 1) * (B + 1)) (.filter it p perm) := bnd_filter L B k p perm it hu hb h
+
+/-- … a restart … -/
+theorem loop_bound_repeat (L : Option Nat) (B : Nat) (g : G) (cur : It) (fresh : Bool)
+    (hg : Bnd L B (g.start L)) (h : Bnd L B cur) : Bnd L (2 * (B + 1)) (.repeat_ g cur fresh) :=
+  bnd_repeat L B g cur fresh hg h
+
+/-- … and a chain of parts -/
+theorem loop_bound_chain (L : Option Nat) (B : Nat) (rest : List G) (cur : It) (h : Bnd L B cur)
+    (hr : ∀ g ∈ rest, Bnd L B (g.start L)) : Bnd L ((rest.length + 1) * (B + 1)) (.chain cur rest) :=
+  bnd_chain L B rest cur h hr
+
 /-- `filter`: with `k` permits left, `next()` answers within `k + 1` rejected elements, whatever the
 predicate does — under a search limit `l` that is at most `l + 1` -/
-theorem next_work_bounded_filter_partial (L : Option Nat) (p : P) (k : Nat) (it : It) (h : Prod it) :
+theorem next_work_bounded_filter (L : Option Nat) (p : P) (k : Nat) (it : It) (h : Prod it) :
     next L (k + 2) (.filter it p (.left k)) ≠ .outOfFuel :=
   filter_next_bounded_aux L p (k + 1) (.left k) it (by simp) (by simp [Permits.bound]) h
 
@@ -34,7 +86,7 @@ theorem next_work_bounded_filter_dead (L : Option Nat) (p : P) (it : It) (h : Pr
 /-- a fresh filter under search limit `l`: at most `l + 1` unproductive iterations per `next()` -/
 theorem next_work_bounded_filter_start (l : Nat) (g : G) (p : P) (h : Prod (g.start (some l))) :
     next (some l) (l + 2) ((G.filter g p).start (some l)) ≠ .outOfFuel := by
-  rw [G.start]; exact next_work_bounded_filter_partial (some l) p l _ h
+  rw [G.start]; exact next_work_bounded_filter (some l) p l _ h
 
 /-- without permits nothing bounds it: this is the code before 5cb2fd9 under *any* limit (it took no
 permit), and the present code when no search limit is configured -/
@@ -43,30 +95,30 @@ theorem filter_without_permits_diverges (L : Option Nat) (n : Nat) :
   filter_unlimited_diverges L n 0
 
 /-- `skip_until` -/
-theorem next_work_bounded_skipUntil_partial (L : Option Nat) (p : P) (found : Bool) (k : Nat) (it : It)
+theorem next_work_bounded_skipUntil (L : Option Nat) (p : P) (found : Bool) (k : Nat) (it : It)
     (h : Prod it) : next L (k + 2) (.skipUntil it p found (.left k)) ≠ .outOfFuel :=
   skipUntil_next_bounded_aux L p found (k + 1) (.left k) it (by simp) (by simp [Permits.bound]) h
 
 /-- `skip(a)`: bounded by `a` … -/
-theorem next_work_bounded_skip_partial (L : Option Nat) (a : Nat) (perm : Permits) (t : Option Nat) (it : It)
+theorem next_work_bounded_skip (L : Option Nat) (a : Nat) (perm : Permits) (t : Option Nat) (it : It)
     (h : Prod it) : next L (a + 1) (.slice it a perm t) ≠ .outOfFuel :=
   slice_next_bounded_skip L a perm t it h
 
 /-- … and by the search limit, however large `a` is (`skip(10**15)` ends in a violation after `l` elements) -/
-theorem next_work_bounded_skip_permits_partial (L : Option Nat) (a k : Nat) (t : Option Nat) (it : It)
+theorem next_work_bounded_skip_permits (L : Option Nat) (a k : Nat) (t : Option Nat) (it : It)
     (h : Prod it) : next L (k + 2) (.slice it a (.left k) t) ≠ .outOfFuel :=
   slice_next_bounded_permits L (k + 1) (.left k) a t it (by simp) (by simp [Permits.bound]) h
 
 /-- `repeat`: at most one restart per `next()`; the repetition of an empty generator ends (it used to
 spin for ever: 44f5035) -/
-theorem next_work_bounded_repeat_partial (L : Option Nat) (g : G) (cur : It) (fresh : Bool)
+theorem next_work_bounded_repeat (L : Option Nat) (g : G) (cur : It) (fresh : Bool)
     (hg : Prod (g.start L)) (hc : Prod cur) : next L 2 (.repeat_ g cur fresh) ≠ .outOfFuel :=
   repeat_next_bounded L g cur fresh hg hc
 
 example : next none 2 ((G.repeat_ (.fromArr [])).start none) = .done := by rfl
 
 /-- `add`: one step per part that has ended -/
-theorem next_work_bounded_chain_partial (L : Option Nat) (rest : List G) (cur : It)
+theorem next_work_bounded_chain (L : Option Nat) (rest : List G) (cur : It)
     (hr : ∀ g ∈ rest, Prod (g.start L)) (hc : Prod cur) :
     next L (rest.length + 1) (.chain cur rest) ≠ .outOfFuel :=
   chain_next_bounded L rest cur hr hc
